@@ -34,10 +34,17 @@ class SeqCheck(Check):
         out = []
         for f in sorted(os.listdir(d)) if os.path.isdir(d) else []:
             ops = [l.strip() for l in open(os.path.join(d, f)) if l.strip()]
+            if f.startswith("huge_"):
+                # self-checking multi-GiB passes of the harness: thorough tier only, no model line
+                if self.tier != "quick":
+                    out.append(Stream("corpus:" + f, ops, history=False, nomodel=True))
+                continue
             out.append(Stream("corpus:" + f, ops, history=True))
         return out
 
     def shrink(self, st, idx, pred):
+        if not st.history:
+            return [st.ops[idx]] if idx < len(st.ops) else st.ops[-1:]
         ops = st.ops[:idx + 1]
         start = 0
         for k in range(len(ops) - 1, -1, -1):
